@@ -298,6 +298,11 @@ def run_case(case, ns):
             obs['witness'].append('error: %r' % (e,))
     sys.setrecursionlimit(case.get('recursionlimit', 1000))
     undo = install_stubs(case.get('stubs', []), case['target'])
+    # select.select on a model socket: answered from the script (the symbolic side records a nondet bool)
+    import select as _select_mod
+    _real_select = _select_mod.select
+    _select_mod.select = lambda r, w, x, timeout=None: ((list(r), [], []) if pyvc_rt.nondet_bool() else ([], [], []))
+    undo.append(lambda: setattr(_select_mod, 'select', _real_select))
     try:
         result = call_target(case, env)
         obs['outcome'] = 'return'
